@@ -1,6 +1,7 @@
 package main
 
 import (
+	"reflect"
 	"fmt"
 	"go/constant"
 	"go/token"
@@ -421,14 +422,25 @@ func isNullPredicate(f *ssa.Function) bool {
 			return true
 		})
 		if yes {
-			// ... and it looks through pointers (a typed nil pointer is not == nil as an interface value)
+			// ... and it looks through pointers (a typed nil pointer is not == nil as an interface value), and it knows
+			// that a nil slice and a nil map are encoded as null too (F46): the kinds Ptr, Slice and Map are all tested
 			ptr := false
+			kinds := map[int64]bool{}
 			forEachOwnInstr(f, func(in ssa.Instruction) {
 				if c, ok := in.(ssa.CallInstruction); ok && (calleeName(c) == "IsNil" || calleeName(c) == "Elem") {
 					ptr = true
 				}
+				if b, ok := in.(*ssa.BinOp); ok && (b.Op == token.EQL || b.Op == token.NEQ) {
+					for _, pair := range [][2]ssa.Value{{b.X, b.Y}, {b.Y, b.X}} {
+						if call, isCall := pair[0].(*ssa.Call); isCall && calleeName(call) == "Kind" {
+							if k, isK := constInt(pair[1]); isK {
+								kinds[k] = true
+							}
+						}
+					}
+				}
 			})
-			return ptr
+			return ptr && kinds[int64(reflect.Ptr)] && kinds[int64(reflect.Slice)] && kinds[int64(reflect.Map)]
 		}
 	}
 	return false
